@@ -6,7 +6,9 @@
      select:   2 and 3 channels x element types int / string per channel x send / receive per case x
                which case is ready (or none, with a default) x with / without default
      constuse: bool and int constants, literal or declared, 1..Depth uses over the types of the kind
-               incl. interface{}, by var declaration or by conversion *)
+               incl. interface{}, by var declaration or by conversion
+     maprange: key type x value type (int / string) x iteration variables (k / k, v / _, v) x 0..2 other live string
+               variables x 0..1 other live int variables *)
 EXTENDS GoMisc, TLC, Json, FiniteSets, SequencesExt
 CONSTANTS Depth
 Variadics ==
@@ -22,7 +24,9 @@ UsesOf(kind) == IF kind = "bool" THEN {"any", "bool", "B"} ELSE {"any", "int", "
 ConstUses ==
   UNION {{[fam |-> "constuse", kind |-> k, decl |-> d, how |-> h, uses |-> u] : d \in {0, 1}, h \in {"var", "conv"}, u \in [1..n -> UsesOf(k)]} :
             n \in 1..Depth, k \in {"bool", "int"}}
-All == Variadics \cup Selects \cup ConstUses
+MapRanges == {[fam |-> "maprange", kt |-> kt, vt |-> vt, form |-> f, live |-> l, ilive |-> il] :
+                 kt \in {"int", "string"}, vt \in {"int", "string"}, f \in {"k", "kv", "v"}, l \in 0..2, il \in 0..1}
+All == Variadics \cup Selects \cup ConstUses \cup MapRanges
 WithId(G) == [i \in 1..Len(G) |-> [id |-> i, c |-> G[i]]]
 ASSUME ndJsonSerialize("cases.ndjson", WithId(SetToSeq(All)))
 
@@ -40,6 +44,11 @@ SumLen(c2, i, after) == IF i > Len(c2.dirs) THEN 0 ELSE Len(IF after THEN SelAft
 SelectSane == c.fam = "select" =>
    LET d == SumLen(c, 1, TRUE) - SumLen(c, 1, FALSE) IN
    IF c.ready = 0 THEN d = 0 ELSE d = (IF c.dirs[c.ready] = "send" THEN 1 ELSE -1)
+\* maprange: the live variables are shown unchanged at the end, whatever the loop is
+MapRangeSane == c.fam = "maprange" =>
+   LET r == MapRangeRef(c)
+       tail == (IF c.live >= 1 THEN <<1, 112>> ELSE <<>>) \o (IF c.live >= 2 THEN <<1, 113>> ELSE <<>>) \o (IF c.ilive >= 1 THEN <<3>> ELSE <<>>) IN
+   Len(r) >= Len(tail) /\ SubSeq(r, Len(r) - Len(tail) + 1, Len(r)) = tail
 \* constuse: a typed use keeps its type whatever the other uses are
 ConstUseSane == c.fam = "constuse" =>
    \A j \in 1..Len(c.uses) : c.uses[j] # "any" => ConstUseRef(c)[j] = c.uses[j]
